@@ -114,7 +114,7 @@ def written_array(op, window, data=None):
     arr = arr[f:t]
     native = arr.astype(arr.dtype.newbyteorder('='))
     if op.get('cast'):
-        native = native.astype(np.dtype(op['cast']))
+        native = native.astype(np.dtype(op['cast'].lstrip('<>')))
     return native
 
 
